@@ -32,7 +32,8 @@ Inductive rn_result (post : list out) (pa : bool) (r r' : rs) (os : list out) : 
     r_stopped r' = false ->
     os = step_outs (nth_step r i) (r_nst r) ++ [OEv 0 i] ++ post ++ lp ->
     (lp = [] \/ lp = [OEv 2 0]) ->
-    0 <= i ->
+    0 <= i < total r ->
+    i = (let i0 := if r_idx r <? 0 then r_idx r mod total r else r_idx r in if i0 >=? total r then 0 else i0) ->
     r_idx r' = i + 1 ->
     r_steps r' = r_steps r -> r_speed4 r' = r_speed4 r -> r_manual r' = r_manual r ->
     r_running r' = r_running r ->
@@ -63,7 +64,8 @@ Proof.
   - cbn [fst snd].
     set (wrap := i0 >=? n).
     set (i1 := if wrap then 0 else i0).
-    assert (Hi1 : 0 <= i1) by (unfold i1; destruct wrap; lia).
+    assert (Hi1 : 0 <= i1 < n).
+    { unfold i1, wrap. destruct (i0 >=? n) eqn:E; [lia|]. rewrite Z.geb_leb in E. apply Z.leb_gt in E. lia. }
     set (st := nth_step r i1).
     set (t := ttn (s_dur st) (r_speed4 r)).
     destruct (negb (r_manual r) && (0 <? t) && negb pa) eqn:Esched.
@@ -103,7 +105,7 @@ Lemma rn_counts post pa r r' os :
   cnt 3 os = (cnt 3 post + b2n (r_stopped r'))%nat /\
   cnt 1 os = cnt 1 post.
 Proof.
-  intros [Hst Ht _ Hos | i lp Hst Hos Hlp _ _ _ _ _ _ _]; subst os; rewrite Hst.
+  intros [Hst Ht _ Hos | i lp Hst Hos Hlp _ _ _ _ _ _ _ _]; subst os; rewrite Hst.
   - change (OClear :: OEv 4 0 :: post ++ [OEv 3 0]) with ([OClear; OEv 4 0] ++ post ++ [OEv 3 0]).
     rewrite !cnt_app. cbn. repeat split; lia.
   - rewrite !cnt_app, !step_outs_no_ev. destruct Hlp; subst lp; cbn; repeat split; lia.
@@ -112,7 +114,7 @@ Qed.
 Lemma rn_wf post pa r r' os :
   r_steps r <> [] -> r_timer r = None -> rn_result post pa r r' os -> wf r' /\ is_start r' = false.
 Proof.
-  intros Hne Hnone [Hst Htm Hsteps Hos | i lp Hst Hos Hlp _ _ Hsteps _ _ _ Hsch].
+  intros Hne Hnone [Hst Htm Hsteps Hos | i lp Hst Hos Hlp _ _ _ Hsteps _ _ _ Hsch].
   - split; [|unfold is_start; rewrite Htm; reflexivity].
     unfold wf. rewrite Htm, Hsteps. repeat split; try assumption; intros; discriminate.
   - destruct Hsch as [(Ht & Hn & _) | (Ht & Hn & _)].
@@ -151,6 +153,16 @@ Record op_spec (o : op) (r r' : rs) (os : list out) : Prop := mkOpSpec {
 Lemma is_start_none r : r_timer r = None -> is_start r = false.
 Proof. unfold is_start. intros ->. reflexivity. Qed.
 
+Lemma op_spec_intro o r r' os :
+  r_stopped r = false -> wf r' -> b2n (r_stopped r') = cnt 4 os -> (cnt 3 os <= cnt 4 os)%nat ->
+  cnt 1 os = b2n (is_start r && is_fire o) -> is_start r' = false -> op_spec o r r' os.
+Proof.
+  intros Es W S4 C3 C1 St. constructor; auto.
+  - rewrite Es. cbn. exact S4.
+  - rewrite St. discriminate.
+  - rewrite Es. discriminate.
+Qed.
+
 Lemma apply_op_spec now o r :
   wf r -> op_spec o r (fst (apply_op now o r)) (snd (apply_op now o r)).
 Proof.
@@ -158,60 +170,816 @@ Proof.
   destruct (r_stopped r) eqn:Es.
   - (* a stopped show ignores everything but update *)
     pose proof (Hst eq_refl) as Hnone.
-    destruct o; unfold apply_op, do_stop, do_update; rewrite ?Es, ?Hnone; cbn [fst snd];
-      try (constructor; rewrite ?Es; cbn; rewrite ?(is_start_none r Hnone); auto;
-           try (intros E; rewrite (is_start_none r Hnone) in E; discriminate)).
-    constructor; cbn; rewrite ?Es, ?Hnone; cbn; auto.
-    + unfold wf. cbn. rewrite Hnone. repeat split; auto; intros; discriminate.
+    assert (Hid : op_spec o r r []).
+    { constructor; cbn; rewrite ?Es; auto.
+      - rewrite (is_start_none r Hnone). reflexivity.
+      - rewrite (is_start_none r Hnone). discriminate. }
+    destruct o; unfold apply_op, do_stop, do_update; rewrite ?Es, ?Hnone; cbn [fst snd]; try exact Hid.
+    constructor; cbn; rewrite ?Es; auto.
+    + unfold wf. cbn. repeat split; auto. intros; discriminate.
     + rewrite (is_start_none r Hnone). reflexivity.
     + unfold is_start. cbn. rewrite Hnone. discriminate.
   - destruct o; unfold apply_op, do_stop, do_update; rewrite ?Es; cbn [fst snd].
     + (* Stop *)
-      constructor; cbn; rewrite ?Es; auto; try discriminate.
+      apply op_spec_intro; auto; cbn; try lia.
       * unfold wf. cbn. repeat split; auto; intros; discriminate.
       * rewrite andb_false_r. reflexivity.
     + (* Pause *)
-      constructor; cbn; rewrite ?Es; auto; try discriminate.
+      apply op_spec_intro; auto; cbn; try lia.
       * unfold wf. cbn. rewrite Es. repeat split; auto; intros; discriminate.
+      * rewrite Es. reflexivity.
       * rewrite andb_false_r. reflexivity.
     + (* Resume *)
       destruct (rn_op_spec [OEv 6 0] false (set_nst (set_timer r None) now)) as (W & S4 & C3 & C1 & St);
-        cbn; auto.
-      constructor; cbn; auto; try discriminate; try lia.
-      * rewrite C1, andb_false_r. reflexivity.
-      * rewrite St. discriminate.
+        [cbn; auto | cbn; auto | cbn; auto | cbn; auto | cbn; auto | ].
+      apply op_spec_intro; auto. rewrite C1, andb_false_r. reflexivity.
     + (* Advance *)
       set (r1 := if n =? 1 then set_nst (set_timer r None) now
                  else set_idx (set_nst (set_timer r None) now) (r_idx (set_nst (set_timer r None) now) + n - 1)).
       destruct (rn_op_spec [OEv 7 0] false r1) as (W & S4 & C3 & C1 & St);
         try (unfold r1; destruct (n =? 1); cbn; auto; fail).
-      constructor; cbn; auto; try discriminate; try lia.
-      * fold r1. rewrite C1, andb_false_r. reflexivity.
-      * fold r1. rewrite St. discriminate.
+      apply op_spec_intro; auto. rewrite C1, andb_false_r. reflexivity.
     + (* StepBack *)
-      destruct (rn_op_spec [OEv 8 0] false
-                  (set_idx (set_nst (set_timer r None) now) (r_idx (set_nst (set_timer r None) now) - (n + 1))))
-        as (W & S4 & C3 & C1 & St); cbn; auto.
-      constructor; cbn; auto; try discriminate; try lia.
-      * rewrite C1, andb_false_r. reflexivity.
-      * rewrite St. discriminate.
+      match goal with |- op_spec _ _ (fst (run_next ?p ?pa ?x)) _ =>
+        destruct (rn_op_spec p pa x) as (W & S4 & C3 & C1 & St); [cbn; auto | cbn; auto | cbn; auto | cbn; auto | cbn; auto | ] end.
+      apply op_spec_intro; auto. rewrite C1, andb_false_r. reflexivity.
     + (* Update *)
-      constructor; cbn; rewrite ?Es; auto; try discriminate.
-      * unfold wf. cbn. rewrite Es. repeat split; auto. discriminate.
-      * rewrite andb_false_r. reflexivity.
+      constructor; cbn; rewrite ?Es; auto; try discriminate; try (rewrite andb_false_r; reflexivity);
+        try (unfold wf; cbn; rewrite ?Es; repeat split; auto; discriminate);
+        try (unfold is_start; cbn; intros E; split; [exact E|reflexivity]).
     + (* Fire *)
       destruct (r_timer r) as [[d [|]]|] eqn:Et.
       * unfold start_now.
         destruct (rn_op_spec [OEv 1 0] (negb (r_running (set_timer r None))) (set_timer r None))
-          as (W & S4 & C3 & C1 & St); cbn; auto.
-        constructor; cbn; auto; try discriminate; try lia.
-        -- unfold is_start. rewrite Et. cbn. rewrite C1. reflexivity.
-        -- cbn in St. rewrite St. discriminate.
-      * destruct (rn_op_spec [] false (set_timer r None)) as (W & S4 & C3 & C1 & St); cbn; auto.
-        constructor; cbn; auto; try discriminate; try lia.
-        -- unfold is_start. rewrite Et. cbn. rewrite C1. reflexivity.
-        -- rewrite St. discriminate.
-      * cbn. constructor; cbn; rewrite ?Es; auto; try discriminate.
+          as (W & S4 & C3 & C1 & St); [cbn; auto | cbn; auto | cbn; auto | cbn; auto | cbn; auto | ].
+        apply op_spec_intro; auto. rewrite C1. unfold is_start. rewrite Et. reflexivity.
+      * destruct (rn_op_spec [] false (set_timer r None)) as (W & S4 & C3 & C1 & St); [cbn; auto | cbn; auto | cbn; auto | cbn; auto | cbn; auto | ].
+        apply op_spec_intro; auto. rewrite C1. unfold is_start. rewrite Et. reflexivity.
+      * cbn [fst snd]. apply op_spec_intro; auto; cbn; try lia.
+        -- rewrite Es. reflexivity.
         -- unfold is_start. rewrite Et. reflexivity.
-        -- unfold is_start. rewrite Et. discriminate.
+        -- unfold is_start. rewrite Et. reflexivity.
+Qed.
+
+(* ------------------------------------------------------------------------------------------ *)
+(* every history of requests                                                                   *)
+Fixpoint run_hist (r : rs) (h : list (Z * op)) : rs * list out :=
+  match h with
+  | [] => (r, [])
+  | (t, o) :: h' =>
+      let r1 := fst (apply_op t o r) in
+      let o1 := snd (apply_op t o r) in
+      (fst (run_hist r1 h'), o1 ++ snd (run_hist r1 h'))
+  end.
+
+Definition hist_inv (r : rs) (acc : list out) : Prop :=
+  wf r /\ cnt 4 acc = b2n (r_stopped r) /\ (cnt 3 acc <= cnt 4 acc)%nat /\
+  (cnt 1 acc + b2n (is_start r) <= 1)%nat.
+
+Lemma hist_inv_step t o r acc :
+  hist_inv r acc -> hist_inv (fst (apply_op t o r)) (acc ++ snd (apply_op t o r)).
+Proof.
+  intros (W & S4 & C3 & P).
+  destruct (apply_op_spec t o r W) as [W' S4' C3' P' St' _].
+  unfold hist_inv. rewrite !cnt_app. split; [exact W'|]. split; [lia|]. split; [lia|].
+  rewrite P'.
+  destruct (is_start (fst (apply_op t o r))) eqn:E.
+  - destruct (St' eq_refl) as (E1 & E2). rewrite E1, E2 in *. cbn in *. lia.
+  - destruct (is_start r && is_fire o) eqn:E2; cbn.
+    + apply andb_true_iff in E2 as [E2 _]. rewrite E2 in P. cbn in P. lia.
+    + destruct (is_start r); cbn in *; lia.
+Qed.
+
+Lemma hist_inv_run h : forall r acc,
+  hist_inv r acc -> hist_inv (fst (run_hist r h)) (acc ++ snd (run_hist r h)).
+Proof.
+  induction h as [|[t o] h IH]; intros r acc H; cbn [run_hist fst snd].
+  - rewrite app_nil_r. exact H.
+  - rewrite app_assoc. apply IH. apply hist_inv_step. exact H.
+Qed.
+
+Lemma play_inv c now : c_steps c <> [] -> hist_inv (fst (play_rs c now)) (snd (play_rs c now)).
+Proof.
+  intros Hne. unfold play_rs.
+  set (idx := if c_start c >? 0 then c_start c - 1
+              else if c_start c <? 0 then c_start c mod Z.of_nat (length (c_steps c)) else 0).
+  destruct (c_sync c =? 0).
+  - unfold start_now.
+    match goal with |- hist_inv (fst (run_next ?p ?pa ?x)) _ =>
+      destruct (rn_op_spec p pa x) as (W & S4 & C3 & C1 & St); [cbn; auto | cbn; auto | cbn; auto | cbn; auto | cbn; auto | ] end.
+    unfold hist_inv. rewrite St, C1. change (cnt 1 [OEv 1 0]) with 1%nat. change (b2n false) with 0%nat.
+    split; [exact W|]. split; [lia|]. split; lia.
+  - cbn [fst snd]. unfold hist_inv, wf, is_start. cbn. repeat split; auto; try discriminate.
+    intros d b E. inversion E. reflexivity.
+Qed.
+
+(* events_once, for every request history *)
+Lemma events_once_l c t0 h :
+  c_steps c <> [] ->
+  let r0 := fst (play_rs c t0) in
+  let all := snd (play_rs c t0) ++ snd (run_hist r0 h) in
+  let r := fst (run_hist r0 h) in
+  (cnt 1 all <= 1)%nat /\ (cnt 4 all <= 1)%nat /\ (cnt 3 all <= cnt 4 all)%nat /\
+  cnt 4 all = b2n (r_stopped r).
+Proof.
+  intros Hne r0 all r.
+  destruct (hist_inv_run h r0 _ (play_inv c t0 Hne)) as (W & S4 & C3 & P).
+  fold all r in S4, C3, P |- *.
+  repeat split; try lia. rewrite S4. destruct (r_stopped r); cbn; lia.
+Qed.
+
+(* a stopped show does nothing more, whatever is requested *)
+Lemma stopped_is_final_l h : forall r,
+  wf r -> r_stopped r = true ->
+  let r' := fst (run_hist r h) in
+  let os := snd (run_hist r h) in
+  r_stopped r' = true /\ r_timer r' = None /\ no_light_ops os /\ cnt 0 os = 0%nat /\
+  cnt 1 os = 0%nat /\ cnt 3 os = 0%nat /\ cnt 4 os = 0%nat.
+Proof.
+  induction h as [|[t o] h IH]; intros r W Hs; cbn [run_hist fst snd].
+  - destruct W as (_ & Hn & _). repeat split; auto.
+  - destruct (apply_op_spec t o r W) as [W' S4' C3' P' _ D'].
+    destruct (D' Hs) as (Hs' & Hl & H0 & Ht).
+    destruct (IH _ W' Hs') as (A & B & C & D & E & F & G).
+    rewrite Hs, Hs' in S4'. cbn in S4'.
+    assert (Hst : is_start r = false).
+    { destruct W as (_ & Hn & _). apply is_start_none. auto. }
+    rewrite Hst in P'. cbn in P'.
+    unfold no_light_ops in *. rewrite forallb_app, !cnt_app.
+    repeat split; auto; try lia. rewrite Hl, C. reflexivity.
+Qed.
+
+(* ------------------------------------------------------------------------------------------ *)
+(* a free-running show: only its own timer acts                                                *)
+Definition marker_of (d : Z) (o : out) : list (Z * Z) :=
+  match o with OEv c i => if c =? 0 then [(i, d)] else [] | _ => [] end.
+Definition markers_at (d : Z) (os : list out) : list (Z * Z) := flat_map (marker_of d) os.
+
+(* (step index, instant) of the steps executed by the next k timer expiries *)
+Fixpoint free_steps (k : nat) (r : rs) : list (Z * Z) :=
+  match k with
+  | O => []
+  | S k' =>
+      match r_timer r with
+      | Some (d, _) =>
+          markers_at d (snd (apply_op d Fire r)) ++ free_steps k' (fst (apply_op d Fire r))
+      | None => []
+      end
+  end.
+
+Definition dur_of (steps : list step) (i : Z) : Z := s_dur (nth (Z.to_nat i) steps (mkStep 0 [])).
+
+Fixpoint on_sched (steps : list step) (sp : Z) (t : Z) (l : list (Z * Z)) : Prop :=
+  match l with
+  | [] => True
+  | (i, t') :: l' => t' = t /\ on_sched steps sp (t + ttn (dur_of steps i) sp) l'
+  end.
+
+(* consecutive executed steps follow each other cyclically *)
+Fixpoint consec (n : Z) (l : list (Z * Z)) : Prop :=
+  match l with
+  | (i, _) :: (((i', _) :: _) as l') => i' = (i + 1) mod n /\ consec n l'
+  | _ => True
+  end.
+
+Lemma markers_app d a b : markers_at d (a ++ b) = markers_at d a ++ markers_at d b.
+Proof. unfold markers_at. apply flat_map_app. Qed.
+
+Lemma markers_step_outs d st start : markers_at d (step_outs st start) = [].
+Proof.
+  unfold markers_at, step_outs. induction (s_acts st) as [|a l IH]; cbn; [reflexivity|].
+  destruct (snd a =? 0); cbn; exact IH.
+Qed.
+
+Lemma free_steps_none k r : r_timer r = None -> free_steps k r = [].
+Proof. destruct k; cbn; [reflexivity|]. intros ->. reflexivity. Qed.
+
+Definition no_markers (post : list out) : Prop := forall d, markers_at d post = [].
+
+(* one _run_next_step of a free-running show, followed by whatever its timers do next *)
+Lemma rn_on_sched post pa r1 k :
+  r_stopped r1 = false -> r_steps r1 <> [] -> r_timer r1 = None -> no_markers post ->
+  (forall r', wf r' -> r_steps r' = r_steps r1 -> r_speed4 r' = r_speed4 r1 ->
+              on_sched (r_steps r1) (r_speed4 r1) (r_nst r') (free_steps k r')) ->
+  on_sched (r_steps r1) (r_speed4 r1) (r_nst r1)
+           (markers_at (r_nst r1) (snd (run_next post pa r1)) ++ free_steps k (fst (run_next post pa r1))).
+Proof.
+  intros Hs Hne Ht Hpost IH.
+  pose proof (run_next_cases post pa r1 Hs Hne) as Hc.
+  destruct (rn_wf _ _ _ _ _ Hne Ht Hc) as (W' & _).
+  destruct Hc as [Hst Htm Hsteps Hos | i lp Hst Hos Hlp Hi Hidef Hidx Hsteps Hsp _ _ Hsch].
+  - rewrite Hos, (free_steps_none _ _ Htm).
+    change (OClear :: OEv 4 0 :: post ++ [OEv 3 0]) with ([OClear; OEv 4 0] ++ post ++ [OEv 3 0]).
+    rewrite !markers_app, Hpost. cbn. exact I.
+  - rewrite Hos, !markers_app, markers_step_outs, Hpost.
+    assert (Hlp0 : markers_at (r_nst r1) lp = []) by (destruct Hlp; subst lp; reflexivity).
+    rewrite Hlp0. cbn. split; [reflexivity|].
+    destruct Hsch as [(Htm & Hn & _) | (Htm & Hn & _)].
+    + rewrite Ht in Htm. rewrite (free_steps_none _ _ Htm). exact I.
+    + unfold step_time, nth_step in Hn. unfold dur_of. rewrite <- Hn. apply IH; assumption.
+Qed.
+
+Lemma free_on_sched k : forall r,
+  wf r -> on_sched (r_steps r) (r_speed4 r) (r_nst r) (free_steps k r).
+Proof.
+  induction k as [|k IH]; intros r W; cbn [free_steps]; [exact I|].
+  destruct (r_timer r) as [[d b]|] eqn:Et; [|exact I].
+  pose proof W as (Hne & Hst & Htm).
+  assert (Hd : d = r_nst r) by (eapply Htm; eassumption). subst d.
+  assert (Hs : r_stopped r = false).
+  { destruct (r_stopped r) eqn:E; [|reflexivity]. rewrite (Hst eq_refl) in Et. discriminate. }
+  unfold apply_op. rewrite Et.
+  assert (IH' : forall r', wf r' -> r_steps r' = r_steps (set_timer r None) ->
+                           r_speed4 r' = r_speed4 (set_timer r None) ->
+                           on_sched (r_steps (set_timer r None)) (r_speed4 (set_timer r None)) (r_nst r')
+                                    (free_steps k r')).
+  { intros r' W' E1 E2. rewrite <- E1, <- E2. apply IH. exact W'. }
+  destruct b.
+  - unfold start_now.
+    apply (rn_on_sched [OEv 1 0] (negb (r_running (set_timer r None))) (set_timer r None) k); auto.
+    intros d. reflexivity.
+  - apply (rn_on_sched [] false (set_timer r None) k); auto.
+    intros d. reflexivity.
+Qed.
+
+(* the steps a show executes from play() on, with no request but its own timers *)
+Definition start_time (c : cfg) (t0 : Z) : Z :=
+  if c_sync c =? 0 then t0 else t0 + c_sync c - t0 mod c_sync c.
+Definition executed (c : cfg) (t0 : Z) (k : nat) : list (Z * Z) :=
+  markers_at t0 (snd (play_rs c t0)) ++ free_steps k (fst (play_rs c t0)).
+
+Lemma executed_on_sched c t0 k :
+  c_steps c <> [] ->
+  on_sched (c_steps c) (c_speed4 c) (start_time c t0) (executed c t0 k).
+Proof.
+  intros Hne. unfold executed, start_time, play_rs.
+  set (idx := if c_start c >? 0 then c_start c - 1
+              else if c_start c <? 0 then c_start c mod Z.of_nat (length (c_steps c)) else 0).
+  destruct (c_sync c =? 0).
+  - unfold start_now.
+    match goal with |- on_sched _ _ _ (markers_at _ (snd (run_next ?p ?pa ?x)) ++ _) =>
+      apply (rn_on_sched p pa x k); auto end.
+    + intros d. reflexivity.
+    + intros r' W' E1 E2. cbn [r_steps r_speed4] in *. rewrite <- E1, <- E2. apply free_on_sched. exact W'.
+  - cbn [fst snd markers_at flat_map app].
+    match goal with |- on_sched _ _ ?t (free_steps k ?r) =>
+      change (on_sched (r_steps r) (r_speed4 r) (r_nst r) (free_steps k r)) end.
+    apply free_on_sched. unfold wf. cbn. repeat split; auto; try discriminate.
+    intros d b E. inversion E. reflexivity.
+Qed.
+
+(* closed form: the j-th executed step happens at start + sum of the preceding steps' duration/speed *)
+Definition sum_before (steps : list step) (sp : Z) (l : list (Z * Z)) (j : nat) : Z :=
+  sumZ (map (fun p => ttn (dur_of steps (fst p)) sp) (firstn j l)).
+Definition dur_before (steps : list step) (l : list (Z * Z)) (j : nat) : Z :=
+  sumZ (map (fun p => dur_of steps (fst p)) (firstn j l)).
+
+Lemma on_sched_nth steps sp : forall l t j i tj,
+  on_sched steps sp t l -> nth_error l j = Some (i, tj) -> tj = t + sum_before steps sp l j.
+Proof.
+  induction l as [|[i0 t0] l IH]; intros t j i tj H E.
+  - destruct j; discriminate.
+  - destruct H as (H1 & H2). destruct j as [|j]; cbn in E.
+    + inversion E; subst. unfold sum_before. cbn. lia.
+    + rewrite (IH _ _ _ _ H2 E). unfold sum_before. cbn [firstn map sumZ fold_right fst].
+      fold (sumZ (map (fun p => ttn (dur_of steps (fst p)) sp) (firstn j l))). lia.
+Qed.
+
+Lemma ttn_exact d sp : 0 < sp -> (sp | 4 * d) -> sp * ttn d sp = 4 * d.
+Proof.
+  intros Hsp [q Hq]. unfold ttn. replace (d * 4) with (q * sp) by lia.
+  rewrite Z.div_mul by lia. lia.
+Qed.
+
+Lemma sumZ_scale {A} (f g : A -> Z) (a b : Z) (l : list A) :
+  (forall x, a * f x = b * g x) -> a * sumZ (map f l) = b * sumZ (map g l).
+Proof.
+  intros H. induction l as [|x l IH]; cbn; [lia|].
+  unfold sumZ in IH. rewrite !Z.mul_add_distr_l, H, IH. reflexivity.
+Qed.
+
+Lemma sum_before_exact steps sp l : 0 < sp ->
+  (forall i, (sp | 4 * dur_of steps i)) ->
+  forall j, sp * sum_before steps sp l j = 4 * dur_before steps l j.
+Proof.
+  intros Hsp Hdiv j. unfold sum_before, dur_before.
+  apply sumZ_scale. intros p. apply ttn_exact; auto.
+Qed.
+
+Lemma step_time_exact_l c t0 k j i tj :
+  c_steps c <> [] ->
+  nth_error (executed c t0 k) j = Some (i, tj) ->
+  tj = start_time c t0 + sum_before (c_steps c) (c_speed4 c) (executed c t0 k) j.
+Proof.
+  intros Hne E. eapply on_sched_nth; [apply executed_on_sched; exact Hne|exact E].
+Qed.
+
+Lemma no_drift_l c t0 k j i tj :
+  c_steps c <> [] -> 0 < c_speed4 c ->
+  (forall m, (c_speed4 c | 4 * dur_of (c_steps c) m)) ->
+  nth_error (executed c t0 k) j = Some (i, tj) ->
+  c_speed4 c * (tj - start_time c t0) = 4 * dur_before (c_steps c) (executed c t0 k) j.
+Proof.
+  intros Hne Hsp Hdiv E.
+  rewrite (step_time_exact_l c t0 k j i tj Hne E).
+  rewrite <- (sum_before_exact _ _ (executed c t0 k) Hsp Hdiv j). lia.
+Qed.
+
+(* ------------------------------------------------------------------------------------------ *)
+(* light stacks: ownership                                                                     *)
+Definition proj (sid : Z) (s : stack) : stack := filter (fun e => fst e =? sid) s.
+Definition others (sid : Z) (ls : lights) : list stack := map (proj sid) ls.
+Definition clean (sid : Z) (ls : lights) : Prop := Forall (fun s => proj sid s = []) ls.
+
+Lemma proj_rem_same sid s : proj sid (rem_key sid s) = [].
+Proof.
+  unfold proj, rem_key. induction s as [|e s IH]; cbn; [reflexivity|].
+  destruct (fst e =? sid) eqn:E; cbn; [exact IH|]. rewrite E. exact IH.
+Qed.
+
+Lemma proj_rem_other sid sid' s : sid' <> sid -> proj sid' (rem_key sid s) = proj sid' s.
+Proof.
+  intros Hd. unfold proj, rem_key. induction s as [|e s IH]; cbn; [reflexivity|].
+  destruct (fst e =? sid) eqn:E; cbn.
+  - apply Z.eqb_eq in E. destruct (fst e =? sid') eqn:E'; [apply Z.eqb_eq in E'; congruence|exact IH].
+  - destruct (fst e =? sid'); [f_equal|]; exact IH.
+Qed.
+
+Lemma proj_ins_other sid sid' c s : sid' <> sid -> proj sid' (ins_key sid c s) = proj sid' s.
+Proof.
+  intros Hd. unfold proj. induction s as [|e s IH]; cbn.
+  - destruct (sid =? sid') eqn:E; [apply Z.eqb_eq in E; congruence|reflexivity].
+  - destruct (sid <? fst e); cbn.
+    + destruct (sid =? sid') eqn:E; [apply Z.eqb_eq in E; congruence|reflexivity].
+    + destruct (fst e =? sid'); [f_equal|]; exact IH.
+Qed.
+
+Lemma proj_set_other sid sid' c s : sid' <> sid -> proj sid' (set_key sid c s) = proj sid' s.
+Proof. intros Hd. unfold set_key. rewrite proj_ins_other, proj_rem_other; auto. Qed.
+
+Lemma map_upd_nth_inv {A B} (g : A -> B) (f : A -> A) : (forall x, g (f x) = g x) ->
+  forall n l, map g (upd_nth n f l) = map g l.
+Proof.
+  intros H n. induction n as [|n IH]; intros [|x l]; cbn; try reflexivity.
+  - rewrite H. reflexivity.
+  - rewrite IH. reflexivity.
+Qed.
+
+Lemma apply_out_frame sid sid' now ls o :
+  sid' <> sid -> others sid' (fst (apply_out sid now ls o)) = others sid' ls.
+Proof.
+  intros Hd. unfold others. destruct o; cbn [apply_out fst].
+  - reflexivity.
+  - apply map_upd_nth_inv. intros s. apply proj_set_other. exact Hd.
+  - apply map_upd_nth_inv. intros s. apply proj_rem_other. exact Hd.
+  - rewrite map_map. apply map_ext. intros s. apply proj_rem_other. exact Hd.
+Qed.
+
+Lemma apply_outs_fst sid now os : forall ls,
+  fst (apply_outs sid now ls os) =
+  fold_left (fun l o => fst (apply_out sid now l o)) os ls.
+Proof.
+  induction os as [|o os IH]; intros ls; cbn [apply_outs fold_left]; [reflexivity|].
+  destruct (apply_out sid now ls o) as [ls1 r1] eqn:E1.
+  specialize (IH ls1). destruct (apply_outs sid now ls1 os) as [ls2 r2]. cbn [fst] in *. exact IH.
+Qed.
+
+Lemma apply_outs_frame sid sid' now os : sid' <> sid -> forall ls,
+  others sid' (fst (apply_outs sid now ls os)) = others sid' ls.
+Proof.
+  intros Hd ls. rewrite apply_outs_fst. revert ls.
+  induction os as [|o os IH]; intros ls; cbn [fold_left]; [reflexivity|].
+  rewrite IH. apply apply_out_frame. exact Hd.
+Qed.
+
+Lemma apply_outs_evs sid now os : forallb is_ev os = true -> forall ls,
+  fst (apply_outs sid now ls os) = ls.
+Proof.
+  intros H ls. rewrite apply_outs_fst. revert ls H.
+  induction os as [|o os IH]; intros ls H; cbn [fold_left]; [reflexivity|].
+  cbn in H. apply andb_true_iff in H as [H1 H2]. destruct o; try discriminate. cbn [apply_out fst].
+  apply IH. exact H2.
+Qed.
+
+Lemma apply_outs_clear sid now evs ls : forallb is_ev evs = true ->
+  clean sid (fst (apply_outs sid now ls (OClear :: evs))).
+Proof.
+  intros H. rewrite apply_outs_fst. cbn [fold_left apply_out fst].
+  rewrite <- apply_outs_fst, apply_outs_evs by exact H.
+  unfold clean. apply Forall_forall. intros s Hin. apply in_map_iff in Hin as (s0 & <- & _).
+  apply proj_rem_same.
+Qed.
+
+Lemma clean_others sid ls ls' : others sid ls' = others sid ls -> clean sid ls -> clean sid ls'.
+Proof.
+  unfold others, clean. revert ls'. induction ls as [|s ls IH]; intros [|s' ls'] E H; cbn in E; try discriminate.
+  - constructor.
+  - inversion E. inversion H; subst. constructor; [congruence|]. apply IH; assumption.
+Qed.
+
+(* when a request stops a show, the first thing it does is clear its context; only events follow *)
+Lemma apply_op_stops now o r :
+  r_steps r <> [] -> r_stopped r = false -> r_stopped (fst (apply_op now o r)) = true ->
+  exists evs, snd (apply_op now o r) = OClear :: evs /\ forallb is_ev evs = true.
+Proof.
+  intros Hne Hs.
+  assert (Hrn : forall post pa r1, r_stopped r1 = false -> r_steps r1 <> [] -> forallb is_ev post = true ->
+            r_stopped (fst (run_next post pa r1)) = true ->
+            exists evs, snd (run_next post pa r1) = OClear :: evs /\ forallb is_ev evs = true).
+  { intros post pa r1 H1 H2 Hp H3.
+    destruct (run_next_cases post pa r1 H1 H2) as [_ _ _ Hos | i lp Hst _ _ _ _ _ _ _ _ _ _]; [|congruence].
+    eexists. split; [exact Hos|]. cbn. rewrite forallb_app, Hp. reflexivity. }
+  destruct o; unfold apply_op, do_stop, do_update; rewrite ?Hs; cbn [fst snd].
+  - intros _. eexists. split; reflexivity.
+  - cbn. congruence.
+  - apply Hrn; cbn; auto.
+  - apply Hrn; destruct (n =? 1); cbn; auto.
+  - apply Hrn; cbn; auto.
+  - cbn. congruence.
+  - destruct (r_timer r) as [[d [|]]|]; cbn [fst snd]; try congruence.
+    + unfold start_now. apply Hrn; cbn; auto.
+    + apply Hrn; cbn; auto.
+Qed.
+
+Lemma play_stops c now :
+  c_steps c <> [] -> r_stopped (fst (play_rs c now)) = true ->
+  exists evs, snd (play_rs c now) = OClear :: evs /\ forallb is_ev evs = true.
+Proof.
+  intros Hne. unfold play_rs.
+  destruct (c_sync c =? 0); [|cbn; congruence].
+  unfold start_now. intros H3.
+  match type of H3 with r_stopped (fst (run_next ?p ?pa ?x)) = true =>
+    destruct (run_next_cases p pa x) as [_ _ _ Hos | i lp Hst _ _ _ _ _ _ _ _ _ _];
+      [reflexivity | exact Hne | | congruence] end.
+  eexists. split; [exact Hos|]. reflexivity.
+Qed.
+
+(* ------------------------------------------------------------------------------------------ *)
+(* several shows on shared lights                                                              *)
+Lemma nth_upd_same {A} (f : A -> A) d : forall n l, (n < length l)%nat ->
+  nth n (upd_nth n f l) d = f (nth n l d).
+Proof.
+  induction n as [|n IH]; intros [|x l] H; cbn in *; try lia; [reflexivity|]. apply IH. lia.
+Qed.
+
+Lemma nth_upd_other {A} (f : A -> A) d : forall n m l, n <> m ->
+  nth m (upd_nth n f l) d = nth m l d.
+Proof.
+  induction n as [|n IH]; intros [|m] [|x l] H; cbn; try reflexivity; try congruence.
+  apply IH. congruence.
+Qed.
+
+Definition show_inv (w : world) (sid : Z) : Prop :=
+  match get_show w sid with
+  | Some r => wf r /\ (r_stopped r = true -> clean sid (w_lights w))
+  | None => clean sid (w_lights w)
+  end.
+Definition world_inv (w : world) : Prop := forall sid, 0 <= sid -> show_inv w sid.
+
+Lemma world_op_eq now sid o w r :
+  get_show w sid = Some r ->
+  world_op now sid o w =
+  mkW (upd_nth (Z.to_nat sid) (fun _ => Some (fst (apply_op now o r))) (w_shows w))
+      (fst (apply_outs sid now (w_lights w) (snd (apply_op now o r))))
+      (w_trace w ++ snd (apply_outs sid now (w_lights w) (snd (apply_op now o r)))).
+Proof.
+  intros E. unfold world_op. rewrite E.
+  destruct (apply_op now o r) as [r' os]. cbn [fst snd].
+  destruct (apply_outs sid now (w_lights w) os) as [ls rows]. reflexivity.
+Qed.
+
+Lemma world_play_eq now sid c w :
+  world_play now sid c w =
+  mkW (upd_nth (Z.to_nat sid) (fun _ => Some (fst (play_rs c now))) (w_shows w))
+      (fst (apply_outs sid now (w_lights w) (snd (play_rs c now))))
+      (w_trace w ++ snd (apply_outs sid now (w_lights w) (snd (play_rs c now)))).
+Proof.
+  unfold world_play. destruct (play_rs c now) as [r' os]. cbn [fst snd].
+  destruct (apply_outs sid now (w_lights w) os) as [ls rows]. reflexivity.
+Qed.
+
+(* frame: a request for one show leaves every other show's entries exactly as they were *)
+Lemma world_op_frame now sid o w sid' :
+  sid' <> sid -> others sid' (w_lights (world_op now sid o w)) = others sid' (w_lights w).
+Proof.
+  intros Hd. destruct (get_show w sid) as [r|] eqn:E.
+  - rewrite (world_op_eq _ _ _ _ _ E). cbn [w_lights]. apply apply_outs_frame. exact Hd.
+  - unfold world_op. rewrite E. reflexivity.
+Qed.
+
+Lemma world_play_frame now sid c w sid' :
+  sid' <> sid -> others sid' (w_lights (world_play now sid c w)) = others sid' (w_lights w).
+Proof. intros Hd. rewrite world_play_eq. cbn [w_lights]. apply apply_outs_frame. exact Hd. Qed.
+
+Lemma get_show_some_lt w sid r : get_show w sid = Some r -> (Z.to_nat sid < length (w_shows w))%nat.
+Proof.
+  unfold get_show. intros E. destruct (Nat.lt_ge_cases (Z.to_nat sid) (length (w_shows w))); [assumption|].
+  rewrite nth_overflow in E by assumption. discriminate.
+Qed.
+
+Lemma update_show_inv (w : world) sid (r' : rs) (os : list out) now :
+  world_inv w -> 0 <= sid -> (Z.to_nat sid < length (w_shows w))%nat ->
+  wf r' ->
+  (r_stopped r' = true ->
+     (forallb is_ev os = true /\ clean sid (w_lights w)) \/
+     (exists evs, os = OClear :: evs /\ forallb is_ev evs = true)) ->
+  world_inv (mkW (upd_nth (Z.to_nat sid) (fun _ => Some r') (w_shows w))
+                 (fst (apply_outs sid now (w_lights w) os))
+                 (w_trace w ++ snd (apply_outs sid now (w_lights w) os))).
+Proof.
+  intros Hinv Hsid Hlt W' Hstop sid' Hsid'. unfold show_inv, get_show. cbn [w_shows w_lights].
+  destruct (Z.eq_dec sid' sid) as [->|Hd].
+  - rewrite nth_upd_same by exact Hlt. split; [exact W'|].
+    intros Hs. destruct (Hstop Hs) as [(Hev & Hc) | (evs & -> & Hev)].
+    + rewrite apply_outs_evs by exact Hev. exact Hc.
+    + apply apply_outs_clear. exact Hev.
+  - rewrite nth_upd_other by (intros E; apply Hd; apply Z2Nat.inj in E; lia).
+    specialize (Hinv sid' Hsid'). unfold show_inv, get_show in Hinv.
+    assert (Hfr : others sid' (fst (apply_outs sid now (w_lights w) os)) = others sid' (w_lights w))
+      by (apply apply_outs_frame; exact Hd).
+    destruct (nth (Z.to_nat sid') (w_shows w) None) as [r0|].
+    + destruct Hinv as (W0 & C0). split; [exact W0|]. intros Hs. eapply clean_others; [exact Hfr|auto].
+    + eapply clean_others; [exact Hfr|exact Hinv].
+Qed.
+
+Lemma world_op_inv now sid o w : world_inv w -> 0 <= sid -> world_inv (world_op now sid o w).
+Proof.
+  intros Hinv Hsid. destruct (get_show w sid) as [r|] eqn:E.
+  - rewrite (world_op_eq _ _ _ _ _ E).
+    pose proof (Hinv sid Hsid) as Hs. unfold show_inv in Hs. rewrite E in Hs. destruct Hs as (W & Hc).
+    destruct (apply_op_spec now o r W) as [W' _ _ _ _ D'].
+    apply update_show_inv; auto.
+    + eapply get_show_some_lt; eassumption.
+    + intros Hs'. destruct (r_stopped r) eqn:Es.
+      * left. destruct (D' eq_refl) as (_ & Hl & _). split; [exact Hl|auto].
+      * right. apply apply_op_stops; auto. apply W.
+  - unfold world_op. rewrite E. exact Hinv.
+Qed.
+
+Lemma world_play_inv now sid c w :
+  world_inv w -> 0 <= sid -> (Z.to_nat sid < length (w_shows w))%nat -> get_show w sid = None ->
+  c_steps c <> [] -> world_inv (world_play now sid c w).
+Proof.
+  intros Hinv Hsid Hlt E Hne. rewrite world_play_eq.
+  destruct (play_inv c now Hne) as (W' & _).
+  apply update_show_inv; auto.
+  intros Hs'. right. apply play_stops; auto.
+Qed.
+
+(* histories of the world: shows are played into free slots, any request (timer expiries included) may follow *)
+Inductive reach : world -> Prop :=
+| R0 (n m : nat) : reach (mkW (repeat None n) (repeat [] m) [])
+| RPlay w now sid c : reach w -> 0 <= sid -> (Z.to_nat sid < length (w_shows w))%nat ->
+                      get_show w sid = None -> c_steps c <> [] -> reach (world_play now sid c w)
+| ROp w now sid o : reach w -> 0 <= sid -> reach (world_op now sid o w).
+
+Lemma reach_inv w : reach w -> world_inv w.
+Proof.
+  induction 1 as [n m | w now sid c _ IH Hsid Hlt E Hne | w now sid o _ IH Hsid].
+  - intros sid Hsid. unfold show_inv, get_show. cbn [w_shows w_lights].
+    assert (Hn : nth (Z.to_nat sid) (repeat (@None rs) n) None = None).
+    { generalize (Z.to_nat sid). induction n as [|n IHn]; intros [|k]; cbn; auto. }
+    rewrite Hn. unfold clean. apply Forall_forall. intros s Hin. apply repeat_spec in Hin. subst s. reflexivity.
+  - apply world_play_inv; assumption.
+  - apply world_op_inv; assumption.
+Qed.
+
+Lemma stop_clears_context_l w sid r :
+  reach w -> 0 <= sid -> get_show w sid = Some r -> r_stopped r = true -> clean sid (w_lights w).
+Proof.
+  intros Hr Hsid E Hs. pose proof (reach_inv w Hr sid Hsid) as H. unfold show_inv in H. rewrite E in H.
+  apply H. exact Hs.
+Qed.
+
+Lemma stop_request_clears_l w now sid r :
+  reach w -> 0 <= sid -> get_show w sid = Some r -> clean sid (w_lights (world_op now sid Stop w)).
+Proof.
+  intros Hr Hsid E.
+  assert (Hr' : reach (world_op now sid Stop w)) by (constructor; assumption).
+  pose proof (get_show_some_lt _ _ _ E) as Hlt.
+  eapply stop_clears_context_l with (r := fst (apply_op now Stop r)); [exact Hr'|exact Hsid| |].
+  - rewrite (world_op_eq _ _ _ _ _ E). unfold get_show. cbn [w_shows]. rewrite nth_upd_same by exact Hlt. reflexivity.
+  - cbn. unfold do_stop. destruct (r_stopped r) eqn:Es; cbn; auto.
+Qed.
+
+Lemma all_stopped_all_dark_l w :
+  reach w ->
+  (forall sid r, 0 <= sid -> get_show w sid = Some r -> r_stopped r = true) ->
+  forall sid, 0 <= sid -> clean sid (w_lights w).
+Proof.
+  intros Hr Hall sid Hsid. pose proof (reach_inv w Hr sid Hsid) as H. unfold show_inv in H.
+  destruct (get_show w sid) as [r|] eqn:E; [|exact H]. apply H. eapply Hall; eauto.
+Qed.
+
+(* ------------------------------------------------------------------------------------------ *)
+(* control requests                                                                            *)
+Definition norm_idx (r : rs) (j : Z) : Z :=
+  let i0 := if j <? 0 then j mod total r else j in if i0 >=? total r then 0 else i0.
+
+Definition target (o : op) (r : rs) : Z :=
+  match o with
+  | Advance n => if n =? 1 then r_idx r else r_idx r + n - 1
+  | StepBack n => r_idx r - (n + 1)
+  | _ => r_idx r
+  end.
+
+Definition is_control (o : op) : bool :=
+  match o with Resume | Advance _ | StepBack _ => true | _ => false end.
+
+Definition set_starts_at (now : Z) (o : out) : Prop :=
+  match o with OSet _ _ st => st = now | _ => True end.
+
+Lemma step_outs_start st now : Forall (set_starts_at now) (step_outs st now).
+Proof.
+  unfold step_outs. apply Forall_forall. intros o Hin. apply in_map_iff in Hin as (a & <- & _).
+  destruct (snd a =? 0); cbn; auto.
+Qed.
+
+(* resume / advance / step_back on a live show: the pending timer is dropped, the step
+   norm_idx(target) runs NOW (its light effects carry start_time = now) and the next deadline is
+   now + duration/speed of that step; or the show completes *)
+Lemma control_reanchors_l now o r :
+  is_control o = true -> r_stopped r = false -> r_steps r <> [] ->
+  let r' := fst (apply_op now o r) in
+  let os := snd (apply_op now o r) in
+  Forall (set_starts_at now) os /\
+  ((r_stopped r' = true /\ r_timer r' = None) \/
+   (r_stopped r' = false /\
+    let i := norm_idx r (target o r) in
+    In (OEv 0 i) os /\ r_idx r' = i + 1 /\
+    (r_timer r' = None \/
+     (r_timer r' = Some (now + step_time r i, false) /\ r_nst r' = now + step_time r i /\ 0 < step_time r i)))).
+Proof.
+  intros Hc Hs Hne.
+  assert (Hrn : forall post r1, r_stopped r1 = false -> r_steps r1 = r_steps r -> r_speed4 r1 = r_speed4 r ->
+            r_timer r1 = None -> r_nst r1 = now -> Forall (set_starts_at now) post ->
+            let r' := fst (run_next post false r1) in
+            let os := snd (run_next post false r1) in
+            Forall (set_starts_at now) os /\
+            ((r_stopped r' = true /\ r_timer r' = None) \/
+             (r_stopped r' = false /\
+              let i := norm_idx r (r_idx r1) in
+              In (OEv 0 i) os /\ r_idx r' = i + 1 /\
+              (r_timer r' = None \/
+               (r_timer r' = Some (now + step_time r i, false) /\ r_nst r' = now + step_time r i /\
+                0 < step_time r i))))).
+  { intros post r1 H1 H2 H2' H3 H4 Hp r' os.
+    assert (Hne1 : r_steps r1 <> []) by (rewrite H2; exact Hne).
+    subst r' os.
+    destruct (run_next_cases post false r1 H1 Hne1) as [Hst Htm _ Hos | i lp Hst Hos Hlp Hi Hidef Hidx _ _ _ _ Hsch].
+    - split.
+      + rewrite Hos. repeat constructor. apply Forall_app. split; [exact Hp|repeat constructor].
+      + left. split; assumption.
+    - assert (Hieq : i = norm_idx r (r_idx r1)).
+      { rewrite Hidef. unfold norm_idx, total. rewrite H2. reflexivity. }
+      assert (Hste : step_time r1 i = step_time r i).
+      { unfold step_time, nth_step. rewrite H2, H2'. reflexivity. }
+      split.
+      + rewrite Hos, H4. apply Forall_app. split; [apply step_outs_start|].
+        constructor; [exact I|]. apply Forall_app. split; [exact Hp|].
+        destruct Hlp; subst lp; repeat constructor.
+      + right. split; [exact Hst|]. cbv zeta. rewrite <- Hieq. split.
+        * rewrite Hos. apply in_or_app. right. left. reflexivity.
+        * split; [exact Hidx|].
+          destruct Hsch as [(Htm & _) | (Htm & Hn & Hpos & _)].
+          -- left. rewrite Htm. exact H3.
+          -- right. rewrite <- Hste, <- H4. repeat split; assumption. }
+  destruct o; try discriminate; unfold apply_op; rewrite Hs.
+  - apply (Hrn [OEv 6 0] (set_nst (set_timer r None) now)); cbn; auto. repeat constructor.
+  - unfold target. destruct (n =? 1).
+    + apply (Hrn [OEv 7 0] (set_nst (set_timer r None) now)); cbn; auto. repeat constructor.
+    + apply (Hrn [OEv 7 0] (set_idx (set_nst (set_timer r None) now) (r_idx (set_nst (set_timer r None) now) + n - 1)));
+        cbn; auto. repeat constructor.
+  - apply (Hrn [OEv 8 0] (set_idx (set_nst (set_timer r None) now) (r_idx (set_nst (set_timer r None) now) - (n + 1))));
+      cbn; auto. repeat constructor.
+Qed.
+
+(* pause: the timer is dropped, nothing else changes, and nothing runs until the next request *)
+Lemma pause_holds_l now r k :
+  r_stopped r = false ->
+  apply_op now Pause r = (set_timer r None, [OEv 5 0]) /\ free_steps k (set_timer r None) = [].
+Proof.
+  intros Hs. unfold apply_op. rewrite Hs. split; [reflexivity|]. apply free_steps_none. reflexivity.
+Qed.
+
+(* ------------------------------------------------------------------------------------------ *)
+(* the full "played exactly once when the show runs" is false of the code: recorded finding     *)
+Definition wit_cfg : cfg :=
+  mkCfg [mkStep 500000 [(0, 1)]] 4 (-1) 1 500000 false true.
+Definition wit_hist : list (Z * op) := [(250000, Pause); (375000, Resume)].
+
+Lemma played_once_refuted_l :
+  exists c t0 h,
+    c_steps c <> [] /\
+    let all := snd (play_rs c t0) ++ snd (run_hist (fst (play_rs c t0)) h) in
+    (1 <= cnt 0 all)%nat /\ cnt 1 all = 0%nat.
+Proof.
+  exists wit_cfg, 125000, wit_hist. split; [discriminate|]. vm_compute. split; [lia|reflexivity].
+Qed.
+
+(* ------------------------------------------------------------------------------------------ *)
+(* order of the steps of a free-running show                                                    *)
+Fixpoint consec_from (n i : Z) (l : list (Z * Z)) : Prop :=
+  match l with
+  | [] => True
+  | (i', _) :: l' => i' = (i + 1) mod n /\ consec_from n i' l'
+  end.
+Definition consec_steps (n : Z) (l : list (Z * Z)) : Prop :=
+  match l with [] => True | (i, _) :: l' => 0 <= i < n /\ consec_from n i l' end.
+
+Lemma rn_markers post pa r1 k d :
+  r_stopped r1 = false -> r_steps r1 <> [] -> r_timer r1 = None -> no_markers post ->
+  (markers_at d (snd (run_next post pa r1)) ++ free_steps k (fst (run_next post pa r1)) = []) \/
+  (exists i, let r' := fst (run_next post pa r1) in
+     markers_at d (snd (run_next post pa r1)) ++ free_steps k r' = (i, d) :: free_steps k r' /\
+     i = norm_idx r1 (r_idx r1) /\ 0 <= i < total r1 /\ r_idx r' = i + 1 /\ wf r' /\ is_start r' = false /\
+     r_steps r' = r_steps r1).
+Proof.
+  intros Hs Hne Ht Hpost.
+  pose proof (run_next_cases post pa r1 Hs Hne) as Hc.
+  destruct (rn_wf _ _ _ _ _ Hne Ht Hc) as (W' & St').
+  destruct Hc as [Hst Htm Hsteps Hos | i lp Hst Hos Hlp Hi Hidef Hidx Hsteps _ _ _ Hsch].
+  - left. rewrite Hos, (free_steps_none _ _ Htm).
+    change (OClear :: OEv 4 0 :: post ++ [OEv 3 0]) with ([OClear; OEv 4 0] ++ post ++ [OEv 3 0]).
+    rewrite !markers_app, Hpost. reflexivity.
+  - right. exists i. cbv zeta. rewrite Hos, !markers_app, markers_step_outs, Hpost.
+    assert (Hlp0 : markers_at d lp = []) by (destruct Hlp; subst lp; reflexivity).
+    rewrite Hlp0. repeat split; auto; try apply Hi; try apply W'.
+Qed.
+
+Lemma norm_next n i : 0 <= i < n ->
+  (let i0 := if i + 1 <? 0 then (i + 1) mod n else i + 1 in if i0 >=? n then 0 else i0) = (i + 1) mod n.
+Proof.
+  intros H. cbv zeta. destruct (i + 1 <? 0) eqn:E; [apply Z.ltb_lt in E; lia|].
+  destruct (i + 1 >=? n) eqn:E2; rewrite Z.geb_leb in E2.
+  - apply Z.leb_le in E2. assert (i + 1 = n) by lia. rewrite H0. symmetry. apply Z_mod_same_full.
+  - apply Z.leb_gt in E2. symmetry. apply Z.mod_small. lia.
+Qed.
+
+Lemma free_consec_from k : forall r i,
+  wf r -> r_idx r = i + 1 -> 0 <= i < total r -> is_start r = false ->
+  consec_from (total r) i (free_steps k r).
+Proof.
+  induction k as [|k IH]; intros r i W Hidx Hi Hst; cbn [free_steps]; [exact I|].
+  destruct (r_timer r) as [[d b]|] eqn:Et; [|exact I].
+  assert (b = false) by (unfold is_start in Hst; rewrite Et in Hst; destruct b; [discriminate|reflexivity]). subst b.
+  pose proof W as (Hne & Hstp & Htm).
+  assert (Hs : r_stopped r = false).
+  { destruct (r_stopped r) eqn:E; [|reflexivity]. rewrite (Hstp eq_refl) in Et. discriminate. }
+  unfold apply_op. rewrite Et.
+  destruct (rn_markers [] false (set_timer r None) k d) as [E | (i' & E & Hi' & Hr' & Hidx' & W' & St' & Hsteps')];
+    cbn; auto.
+  - intros ?. reflexivity.
+  - rewrite E. exact I.
+  - cbv zeta in E. rewrite E. cbn [consec_from]. split.
+    + rewrite Hi'. unfold norm_idx, total. cbn [r_idx r_steps set_timer]. rewrite Hidx.
+      apply (norm_next (Z.of_nat (length (r_steps r))) i). exact Hi.
+    + assert (Ht : total (fst (run_next [] false (set_timer r None))) = total r)
+        by (unfold total; rewrite Hsteps'; reflexivity).
+      rewrite <- Ht. apply IH; auto. rewrite Ht. exact Hr'.
+Qed.
+
+Lemma free_consec k r : wf r -> consec_steps (total r) (free_steps k r).
+Proof.
+  intros W. destruct k as [|k]; cbn [free_steps]; [exact I|].
+  destruct (r_timer r) as [[d b]|] eqn:Et; [|exact I].
+  pose proof W as (Hne & Hstp & Htm).
+  assert (Hs : r_stopped r = false).
+  { destruct (r_stopped r) eqn:E; [|reflexivity]. rewrite (Hstp eq_refl) in Et. discriminate. }
+  unfold apply_op. rewrite Et.
+  assert (G : forall post pa, no_markers post ->
+            consec_steps (total r) (markers_at d (snd (run_next post pa (set_timer r None))) ++
+                                    free_steps k (fst (run_next post pa (set_timer r None))))).
+  { intros post pa Hp.
+    destruct (rn_markers post pa (set_timer r None) k d) as [E | (i' & E & Hi' & Hr' & Hidx' & W' & St' & Hsteps')];
+      cbn; auto.
+    - rewrite E. exact I.
+    - cbv zeta in E. rewrite E. cbn [consec_steps]. split; [exact Hr'|].
+      assert (Ht : total (fst (run_next post pa (set_timer r None))) = total r)
+        by (unfold total; rewrite Hsteps'; reflexivity).
+      rewrite <- Ht. apply free_consec_from; auto. rewrite Ht. exact Hr'. }
+  destruct b; [unfold start_now|]; apply G; intros ?; reflexivity.
+Qed.
+
+Lemma step_order_l c t0 k :
+  c_steps c <> [] -> consec_steps (Z.of_nat (length (c_steps c))) (executed c t0 k).
+Proof.
+  intros Hne. unfold executed, play_rs.
+  set (idx := if c_start c >? 0 then c_start c - 1
+              else if c_start c <? 0 then c_start c mod Z.of_nat (length (c_steps c)) else 0).
+  destruct (c_sync c =? 0).
+  - unfold start_now.
+    match goal with |- consec_steps _ (markers_at _ (snd (run_next ?p ?pa ?x)) ++ _) =>
+      destruct (rn_markers p pa x k t0) as [E | (i' & E & Hi' & Hr' & Hidx' & W' & St' & Hsteps')];
+        [reflexivity | exact Hne | reflexivity | intros ?; reflexivity | | ] end.
+    + rewrite E. exact I.
+    + cbv zeta in E. rewrite E. cbn [consec_steps]. split; [exact Hr'|].
+      match goal with |- consec_from _ _ (free_steps k ?r') =>
+        assert (Ht : total r' = Z.of_nat (length (c_steps c))) by (unfold total; rewrite Hsteps'; reflexivity) end.
+      rewrite <- Ht. apply free_consec_from; auto. rewrite Ht. exact Hr'.
+  - cbn [fst snd markers_at flat_map app].
+    match goal with |- consec_steps _ (free_steps k ?r) =>
+      change (consec_steps (total r) (free_steps k r)) end.
+    apply free_consec. unfold wf. cbn. repeat split; auto; try discriminate.
+    intros d b E. inversion E. reflexivity.
 Qed.
